@@ -214,6 +214,8 @@ def b_setattr(interp, obj, name, value):
 def b_str(interp, x=""):
     if isinstance(x, str):
         return x
+    if hasattr(x, "pv_str"):
+        return x.pv_str(interp.cx)
     if isinstance(x, (bool, int)) or (isinstance(x, float) and x == x):
         return str(x)  # concrete number: Python's own spelling
     if interp.cx.ghost.get("structured_fstrings"):
